@@ -386,4 +386,198 @@ func frozenStage(r *ev.Run, only string) {
 		checkFrozen(r, objs[i], block)
 	})
 	r.Set("frozen_objects", len(objs))
+	if only == "" {
+		derivationStage(r)
+	}
+}
+
+// ---- building a second object from shared parts ----
+//
+// Objects are routinely composed from shared parts (one base collider in two scenes, one mesh in two indexes, one
+// object wrapped twice). Building the second composite is not a query of the first, but it runs while the first may
+// be in use on another goroutine: it must not write to the first composite nor to the shared part. Every derivation
+// of the list is applied twice to the same part (with different companions); the complete reachable state of the
+// part and of the first composite is fingerprinted before and after the second derivation, and the first composite
+// must answer as before.
+func derivationStage(r *ev.Run) {
+	p3 := model3d.XYZ
+	sph := func(x, y, z, rad float64) model3d.Collider { return &model3d.Sphere{Center: p3(x, y, z), Radius: rad} }
+	probeColl := func(c model3d.Collider) string {
+		var sb strings.Builder
+		for i, o := range pts3(3) {
+			ray := &model3d.Ray{Origin: o.Scale(1.7), Direction: p3(0.3-float64(i%3)*0.4, 1-float64(i%2)*1.7, 0.2)}
+			f, ok := c.FirstRayCollision(ray)
+			fmt.Fprint(&sb, c.RayCollisions(ray, nil), ok, f.Scale, c.SphereCollision(o, 0.4), ";")
+		}
+		return sb.String()
+	}
+	probeObj := func(o render3d.Object) string {
+		var sb strings.Builder
+		fmt.Fprint(&sb, o.Min(), o.Max())
+		for i, q := range pts3(3) {
+			rc, _, ok := o.Cast(&model3d.Ray{Origin: q.Scale(2.5), Direction: p3(0.3-float64(i%3)*0.4, 1-float64(i%2)*1.7, 0.2)})
+			fmt.Fprint(&sb, ok, rc.Scale, rc.Normal, ";")
+		}
+		return sb.String()
+	}
+	probeSolid := func(s model3d.Solid) string {
+		var sb strings.Builder
+		for _, q := range pts3(4) {
+			fmt.Fprint(&sb, s.Contains(q.Scale(1.3)))
+		}
+		return sb.String()
+	}
+	type deriv struct {
+		name  string
+		part  func() interface{}
+		build func(part interface{}, second bool) interface{}
+		probe func(o interface{}) string
+	}
+	// a joined collider whose internal list has spare capacity (3 members), reused as the leading and as a later
+	// member of two larger joins whose other members lie inside its bounds
+	base3 := func() interface{} {
+		return model3d.NewJoinedCollider([]model3d.Collider{sph(-1, 0, 0, 0.5), sph(1, 0, 0, 0.5), sph(0, 1.5, 0, 0.5)})
+	}
+	mesh := func() interface{} { return model3d.NewMeshIcosphere(p3(0.1, 0.2, 0.3), 1, 1) }
+	cobj := func() interface{} {
+		return &render3d.ColliderObject{Collider: &model3d.Sphere{Center: p3(0.3, -0.2, 0.1), Radius: 0.8}, Material: &render3d.LambertMaterial{}}
+	}
+	solids := func() interface{} {
+		return []model3d.Solid{&model3d.Sphere{Center: p3(-0.5, 0, 0), Radius: 0.7}, &model3d.Sphere{Center: p3(0.6, 0.1, 0), Radius: 0.6}, model3d.NewRect(p3(-0.2, -1, -0.3), p3(0.3, 1.2, 0.4))}
+	}
+	ds := []deriv{
+		{"NewJoinedCollider(shared first, extra)", base3, func(p interface{}, second bool) interface{} {
+			extra := sph(0, 0, 0, 0.2)
+			if second {
+				extra = sph(0.2, 0.5, 0, 0.1)
+			}
+			return model3d.NewJoinedCollider([]model3d.Collider{p.(model3d.Collider), extra})
+		}, func(o interface{}) string { return probeColl(o.(model3d.Collider)) }},
+		{"NewJoinedCollider(extra, shared last)", base3, func(p interface{}, second bool) interface{} {
+			extra := sph(0, 0, 0, 0.2)
+			if second {
+				extra = sph(0.2, 0.5, 0, 0.1)
+			}
+			return model3d.NewJoinedCollider([]model3d.Collider{extra, p.(model3d.Collider)})
+		}, func(o interface{}) string { return probeColl(o.(model3d.Collider)) }},
+		{"TransformCollider(shared)", base3, func(p interface{}, second bool) interface{} {
+			off := p3(1, 0, 0)
+			if second {
+				off = p3(0, -2, 0.5)
+			}
+			return model3d.TransformCollider(&model3d.Translate{Offset: off}, p.(model3d.Collider))
+		}, func(o interface{}) string { return probeColl(o.(model3d.Collider)) }},
+		{"MeshToCollider(shared mesh)", mesh, func(p interface{}, second bool) interface{} { return model3d.MeshToCollider(p.(*model3d.Mesh)) },
+			func(o interface{}) string { return probeColl(o.(model3d.Collider)) }},
+		{"MeshToSDF(shared mesh)", mesh, func(p interface{}, second bool) interface{} { return model3d.MeshToSDF(p.(*model3d.Mesh)) },
+			func(o interface{}) string {
+				var sb strings.Builder
+				for _, q := range pts3(3) {
+					fmt.Fprintf(&sb, "%.9f;", o.(model3d.SDF).SDF(q))
+				}
+				return sb.String()
+			}},
+		{"JoinedSolid(shared slice).Optimize", solids, func(p interface{}, second bool) interface{} {
+			s := p.([]model3d.Solid)
+			if second {
+				return model3d.JoinedSolid(s[:2]).Optimize()
+			}
+			return model3d.JoinedSolid(s).Optimize()
+		}, func(o interface{}) string { return probeSolid(o.(model3d.Solid)) }},
+		{"NewSolidMux(shared slice)", solids, func(p interface{}, second bool) interface{} {
+			s := p.([]model3d.Solid)
+			if second {
+				return model3d.NewSolidMux(s[1:])
+			}
+			return model3d.NewSolidMux(s)
+		}, func(o interface{}) string { return probeSolid(o.(*model3d.SolidMux)) }},
+	}
+	// render objects: every wrapper applied to the result of every wrapper
+	type wrap struct {
+		name string
+		f    func(o render3d.Object, second bool) render3d.Object
+	}
+	wraps := []wrap{
+		{"Translate", func(o render3d.Object, s bool) render3d.Object {
+			if s {
+				return render3d.Translate(o, p3(0, -2, 0.5))
+			}
+			return render3d.Translate(o, p3(1, 0, 0))
+		}},
+		{"Rotate", func(o render3d.Object, s bool) render3d.Object {
+			if s {
+				return render3d.Rotate(o, p3(0, 1, 0), -0.7)
+			}
+			return render3d.Rotate(o, p3(0, 0, 1), 1.1)
+		}},
+		{"Scale", func(o render3d.Object, s bool) render3d.Object {
+			if s {
+				return render3d.Scale(o, 0.5)
+			}
+			return render3d.Scale(o, 2)
+		}},
+		{"MatrixMultiply", func(o render3d.Object, s bool) render3d.Object {
+			if s {
+				return render3d.MatrixMultiply(o, &model3d.Matrix3{1, 0, 0, 0.5, 1, 0, 0, 0, 2})
+			}
+			return render3d.MatrixMultiply(o, &model3d.Matrix3{2, 0, 0, 0, 1, 0, 0, 0, 0.5})
+		}},
+		{"JoinedObject", func(o render3d.Object, s bool) render3d.Object {
+			extra := &render3d.ColliderObject{Collider: &model3d.Sphere{Center: p3(2, 2, 2), Radius: 0.3}, Material: &render3d.LambertMaterial{}}
+			if s {
+				return render3d.JoinedObject{extra, o}
+			}
+			return render3d.JoinedObject{o, extra}
+		}},
+	}
+	for _, w1 := range wraps {
+		for _, w2 := range wraps {
+			w1, w2 := w1, w2
+			ds = append(ds, deriv{w2.name + "(twice over " + w1.name + "(object))", func() interface{} { return w1.f(cobj().(render3d.Object), false) },
+				func(p interface{}, second bool) interface{} { return w2.f(p.(render3d.Object), second) },
+				func(o interface{}) string { return probeObj(o.(render3d.Object)) }})
+		}
+	}
+	for _, d := range ds {
+		r.Eval(1)
+		c := frozenCase{Kind: "derivation", Object: d.name}
+		var part, first interface{}
+		if p := ev.Try(func() { part = d.part(); first = d.build(part, false) }); p != "" {
+			r.Violation("derivation/"+family(d.name)+"/panic", d.name+": "+p, c)
+			continue
+		}
+		answers := d.probe(first)
+		partProbe := ""
+		if pc, ok := part.(model3d.Collider); ok {
+			partProbe = probeColl(pc)
+		} else if po, ok := part.(render3d.Object); ok {
+			partProbe = probeObj(po)
+		}
+		bPart, bFirst := frozen.Dump(part), frozen.Dump(first)
+		if p := ev.Try(func() { _ = d.build(part, true) }); p != "" {
+			r.Violation("derivation/"+family(d.name)+"/panic", d.name+" (second derivation): "+p, c)
+			continue
+		}
+		if dd := frozen.Diff(bPart, frozen.Dump(part)); dd != "" {
+			r.Violation("derivation/"+family(d.name)+"/shared-part-written", fmt.Sprintf("%s: building a second object from the shared part changed the part: %s", d.name, dd), c)
+			continue
+		}
+		if dd := frozen.Diff(bFirst, frozen.Dump(first)); dd != "" {
+			r.Violation("derivation/"+family(d.name)+"/first-object-written", fmt.Sprintf("%s: building a second object from the shared part changed the first one: %s", d.name, dd), c)
+			continue
+		}
+		if got := d.probe(first); got != answers {
+			r.Violation("derivation/"+family(d.name)+"/first-object-answers", d.name+": the first object answers differently after the second one was built", c)
+			continue
+		}
+		if pc, ok := part.(model3d.Collider); ok && probeColl(pc) != partProbe {
+			r.Violation("derivation/"+family(d.name)+"/shared-part-answers", d.name+": the shared part answers differently after it was used twice", c)
+			continue
+		} else if po, ok := part.(render3d.Object); ok && probeObj(po) != partProbe {
+			r.Violation("derivation/"+family(d.name)+"/shared-part-answers", d.name+": the shared part answers differently after it was wrapped twice", c)
+			continue
+		}
+		r.NontrivialAdd(1)
+	}
+	r.Set("derivations", len(ds))
 }
